@@ -16,6 +16,7 @@ PURE = {"is_triple_quoted": "bool", "balanced_parentheses": "bool"}
 CONTRACTS = [
     Contract(
         M + ":cst_scan",
+        total=True,
         params={"scanned": "list:str", "stack": "list:str"},
         modifies=["scanned", "stack"],
         ensures=[
@@ -37,6 +38,7 @@ CONTRACTS = [
     ),
     Contract(
         M + ":cst_scanner",
+        total=True,
         params={"source": "str"},
         result="list:str",
         ensures=["joined(result) == source"],
@@ -46,6 +48,7 @@ CONTRACTS = [
     ),
     Contract(
         M + ":infer_cst_type",
+        total=True,
         params={},
         result="ctor",
         ensures=["is_ctor(result)"],
@@ -54,6 +57,7 @@ CONTRACTS = [
     ),
     Contract(
         M + ":cst_parse_one_node#body",
+        total=True,
         src=M + ":cst_parse_one_node",
         decorators=["set_prev_node"],
         params={"statement": "str", "state": STATE},
@@ -86,6 +90,7 @@ CONTRACTS = [
     ),
     Contract(
         M + ":cst_parser",
+        total=True,
         params={"scanned": "list:str"},
         result="list:node",
         ensures=[
@@ -110,6 +115,7 @@ CONTRACTS = [
     ),
     Contract(
         "cdd.shared.cst:cst_parse",
+        total=True,
         params={"source": "str"},
         result="list:node",
         ensures=[
